@@ -193,7 +193,7 @@ func ruleBuilderVisitsAll(w *core.World, r *core.Report, b *ssa.Function) {
 		if !ok || bad != "" {
 			return
 		}
-		refused := !core.IsNilConst(p.Resolve(ret.Results[1]))
+		refused := !pathNil(p, ret.Results[1])
 		why := ""
 		switch {
 		case p.Holds(token.NEQ, isErr, core.IsNilConst):
@@ -517,7 +517,7 @@ func ruleRefusalReasons(w *core.World, r *core.Report, b *ssa.Function) {
 	isKeySlot := isResultOf("pkg/redis.KeyToSlot", -1)
 	core.EnumPathsN(b.Blocks[0], 0, 400000, core.Unroll, func(p *core.Path) {
 		ret, ok := p.End.(*ssa.Return)
-		if !ok || bad != "" || core.IsNilConst(p.Resolve(ret.Results[1])) {
+		if !ok || bad != "" || pathNil(p, ret.Results[1]) {
 			return
 		}
 		n++
